@@ -87,6 +87,23 @@ pub fn sprinkle_exotic(r: &mut Rng, input: &str) -> String {
     out
 }
 
+/// U+0000 at the start and at a few other places (the "no value yet" encoding of many memo
+/// tables; a character most classes written with a negation contain).
+pub fn inject_nul(r: &mut Rng, input: &str) -> String {
+    let cs: Vec<char> = input.chars().collect();
+    let mut out = String::new();
+    if r.chance(70) {
+        out.push('\0');
+    }
+    for c in cs {
+        out.push(c);
+        if r.chance(10) {
+            out.push('\0');
+        }
+    }
+    out
+}
+
 pub struct ProgCfg {
     pub max_modes: usize,
     pub max_patterns: usize,
